@@ -83,6 +83,25 @@ def programs(rng, tier):
             P.add(["var_pick", bdd_sx(a), str(rng.choice(pool))])
         else:
             P.add(["pick_random", bdd_sx(a), V_, "v" + "".join(rng.choice("01") for _ in range(len(xs)))])
+    # sparse DNF-shaped functions (2..4 cubes of 2..3 literals over 4..7 variables: multiplexer-like diagrams whose projections often
+    # have the SAME node count as the function), picked over every single supported variable and over some pairs in both orders
+    for _ in range(700 if tier == "quick" else 20000):
+        nv = rng.choice([4, 4, 5, 6, 7])
+        cubes = []
+        for _c in range(rng.randrange(2, 5)):
+            vs_ = rng.sample(range(nv), rng.choice([2, 2, 3]))
+            cubes.append([(x, rng.random() < 0.5) for x in vs_])
+        sup = sorted({x for c in cubes for x, _ in c})
+        a = bdd_from_fn(nv, sup, lambda asg, cubes=cubes: any(all(asg[x] == c for x, c in cube) for cube in cubes))
+        if len(a) < 3:
+            continue
+        for x in sup:
+            P.add(["pick", bdd_sx(a), ["L", str(x)]])
+        if len(sup) >= 2:
+            x, y = rng.sample(sup, 2)
+            P.add(["pick", bdd_sx(a), ["L", str(x), str(y)]])
+            P.add(["pick", bdd_sx(a), ["L", str(y), str(x)]])
+            P.add(["pick_random", bdd_sx(a), ["L", str(x), str(y)], "v" + rng.choice("01") + rng.choice("01")])
     # storms of consecutive select / restrict calls (one program = one thread, one call after the other) with short literal lists
     # over 24..64 variables on few-node operands: state kept between calls and keyed by anything less than the whole literal list
     # (a hash of it, its length, its last literal) is hit by some consecutive pair
